@@ -186,6 +186,55 @@ type hdrCase struct {
 	recv, ws, s2s bool
 	loc, orig     string // our address / the peer's (receiving), or location / origin (initiating)
 	lang          string
+	// prior: what happened in this process BEFORE the session under test was created (see
+	// runPrior); "" = nothing.  A header must not depend on it.
+	prior string
+}
+
+// priors: histories that precede the session under test.  wf1: another session (same role and
+// framing, other addresses / language / namespace) whose very first write fails; wf2: its second
+// write fails; wfb: its connection accepts only the first 10 bytes; wfx: like wf1 on the other
+// framing and role; ctx: its context is done from the start; ok: it got its header out.
+var priors = []string{"wf1", "wf2", "wfb", "wfx", "ctx", "ok"}
+
+const (
+	victimLoc  = "victim.example"
+	victimOrig = "secret@victim.example/s3cr3t"
+)
+
+// runPrior runs the history `kind` (one other session on a connection of its own).
+func runPrior(kind string, c hdrCase) {
+	if kind == "" {
+		return
+	}
+	ws, recv := c.ws, c.recv
+	if kind == "wfx" {
+		ws, recv = !ws, !recv
+	}
+	loc, orig := jid.MustParse(victimLoc), jid.MustParse(victimOrig)
+	st := xmpp.S2S
+	var conn *nc.Conn
+	if recv {
+		st |= xmpp.Received
+		conn = nc.NewConn(nc.S(peerHeader(ws, "jabber:server", "", orig.String(), loc.String())))
+	} else {
+		conn = nc.NewConn()
+	}
+	ctx, cancel := context.WithCancel(context.Background())
+	defer cancel()
+	switch kind {
+	case "wf1", "wfx":
+		conn.FailWriteCall = 1
+	case "wf2":
+		conn.FailWriteCall = 2
+	case "wfb":
+		conn.FailWriteAfter = 10
+	case "ctx":
+		cancel()
+	}
+	_ = common.Recover(func() {
+		_, _ = xmpp.NewSession(ctx, loc, orig, conn, st, negotiator(ws, "de"))
+	})
 }
 
 func jidOrZero(s string) (jid.JID, error) {
@@ -212,6 +261,7 @@ func runHdr(r *common.Run, c hdrCase, class string) {
 	}
 	var conn *nc.Conn
 	var to, from string
+	runPrior(c.prior, c)
 	p := common.Recover(func() {
 		if c.recv {
 			// the peer (initiator) announces from=orig to=loc; we answer to=orig from=loc
@@ -264,6 +314,9 @@ func runHdr(r *common.Run, c hdrCase, class string) {
 		}
 	}
 	line := fmt.Sprintf("hdr %s %s %s %s %s %s %s", common.B(c.ws), hx(xmlns), hx(to), hx(from), hx(lineID), hx(c.lang), common.Hex(lineHdr))
+	if c.prior != "" {
+		line = "hdrp " + c.prior + line[3:]
+	}
 	r.Line(line, obs)
 	r.Case(line, true, class)
 	lines := []string{r.Prop + " " + line}
@@ -318,6 +371,16 @@ func runHdr(r *common.Run, c hdrCase, class string) {
 	if len(got.Attr) != len(uniqueAttrs(got.Attr)) {
 		r.Fail("header-wellformed", "duplicate-attribute", lines, "an attribute occurs twice")
 	}
+	// everything this session wrote holds ONE stream-open element and at most one XML declaration
+	// (the header is "a" well-formed stream open element, whatever happened to other sessions before)
+	if opens, decls := countOpens(emitted); opens != 1 || decls > 1 {
+		r.Fail("header-wellformed", "not-a-single-header", lines, fmt.Sprintf("%d stream-open elements and %d XML declarations were written: %s", opens, decls, emitted))
+	}
+	for _, leak := range []string{victimLoc, "s3cr3t"} {
+		if c.prior != "" && bytes.Contains(emitted, []byte(leak)) {
+			r.Fail("header-faithful", "other-session-data", lines, fmt.Sprintf("the header carries data of another session (%s): %s", leak, emitted))
+		}
+	}
 
 	// (ii) the library's own parser as the peer
 	var s2 *xmpp.Session
@@ -359,6 +422,28 @@ func runHdr(r *common.Run, c hdrCase, class string) {
 		}
 		if in.XMLNS != wantNS {
 			r.Fail("header-peer-recovers", "xmlns", lines, fmt.Sprintf("xmlns: sent %q, the library reads %q", wantNS, in.XMLNS))
+		}
+	}
+}
+
+// countOpens counts the stream-open elements (either framing) and XML declarations in what a
+// session wrote.
+func countOpens(b []byte) (opens, decls int) {
+	d := xml.NewDecoder(bytes.NewReader(b))
+	for {
+		tok, err := d.RawToken()
+		if err != nil {
+			return
+		}
+		switch t := tok.(type) {
+		case xml.StartElement:
+			if (t.Name.Space == "stream" && t.Name.Local == "stream") || t.Name.Local == "open" {
+				opens++
+			}
+		case xml.ProcInst:
+			if t.Target == "xml" {
+				decls++
+			}
 		}
 	}
 }
@@ -774,6 +859,7 @@ func isOneZero(v string) bool {
 // buildAllFacts regenerates the ground truth of every deterministic header variant (for
 // replays).
 func buildAllFacts() {
+	nearMissCases(nil, 64)
 	for _, ws := range []bool{false, true} {
 		for _, recv := range []bool{false, true} {
 			from, to := locA, origA
@@ -786,6 +872,128 @@ func buildAllFacts() {
 			for _, t := range pool {
 				for _, f := range pool {
 					mkHdr(ws, hv{open: true, version: "1.0", xmlns: "jabber:client", id: "s1", to: t, from: f})
+				}
+			}
+		}
+	}
+}
+
+// ---- near-miss addresses (round D) ----------------------------------------------------------
+
+// nearMisses returns addresses that differ from addr but are as close to it as an address can
+// be: every other way to cut the SAME octets into localpart / domainpart / resourcepart (the
+// separators move, nothing else changes), the address with its last octet dropped, with one
+// octet appended, bare vs full, and the parts one position over.  All are valid addresses with a
+// different canonical form (checked here with jid.Parse; whatever the library later says about
+// equality is not consulted).
+func nearMisses(addr string, max int) []string {
+	j, err := jid.Parse(addr)
+	if err != nil {
+		return nil
+	}
+	canon := j.String()
+	data := j.Localpart() + j.Domainpart() + j.Resourcepart()
+	seen := map[string]bool{canon: true}
+	// the re-cuts by WHICH boundary moved: only domain/resource (the localpart is the same), only
+	// local/domain (the resourcepart is the same), both
+	var cutsDR, cutsLD, cutsBoth, others []string
+	add := func(dst *[]string, raw string) {
+		c, err := jid.Parse(raw)
+		if err != nil || seen[c.String()] || c.String() != raw {
+			return
+		}
+		seen[raw] = true
+		*dst = append(*dst, raw)
+	}
+	ll0, dl0 := len(j.Localpart()), len(j.Domainpart())
+	for ll := 0; ll < len(data); ll++ {
+		for dl := 1; ll+dl <= len(data); dl++ {
+			raw := data[ll : ll+dl]
+			if ll > 0 {
+				raw = data[:ll] + "@" + raw
+			}
+			if ll+dl < len(data) {
+				raw += "/" + data[ll+dl:]
+			}
+			if c, err := jid.Parse(raw); err == nil && c.Localpart()+c.Domainpart()+c.Resourcepart() == data {
+				switch {
+				case ll == ll0:
+					add(&cutsDR, raw)
+				case ll+dl == ll0+dl0:
+					add(&cutsLD, raw)
+				default:
+					add(&cutsBoth, raw)
+				}
+			}
+		}
+	}
+	add(&others, canon[:len(canon)-1])
+	add(&others, canon+"x")
+	if j.Resourcepart() != "" {
+		add(&others, j.Bare().String())
+	} else {
+		add(&others, canon+"/r")
+	}
+	if j.Localpart() != "" {
+		add(&others, j.Domain().String())
+	}
+	out := append([]string(nil), others...)
+	spread := func(l []string, n int) {
+		if n < 1 {
+			n = 1
+		}
+		step := 1
+		if len(l) > n {
+			step = (len(l) + n - 1) / n
+		}
+		for i := 0; i < len(l); i += step {
+			out = append(out, l[i])
+		}
+	}
+	spread(cutsDR, max/2)
+	spread(cutsLD, max/4)
+	spread(cutsBoth, max/4)
+	return out
+}
+
+// established address pairs (location, origin) for the near-miss cases
+var nearPairs = [][2]string{
+	{"example.community", "juliet@example.community"},
+	{"chat.example.org", "ab@c.example/res"},
+}
+
+// nearMissCases runs (or, with run == nil, only registers the ground truth of) the headers whose
+// to / from is a near miss of the established address.
+func nearMissCases(r *common.Run, max int) {
+	for _, pair := range nearPairs {
+		loc, orig := pair[0], pair[1]
+		for _, ws := range []bool{false, true} {
+			for _, recv := range []bool{false, true} {
+				from, to := loc, orig
+				if recv {
+					from, to = orig, loc
+				}
+				good := mkHdr(ws, hv{open: true, version: "1.0", xmlns: "jabber:client", id: "s1", to: to, from: from})
+				var vs []string
+				for _, nm := range nearMisses(from, max) {
+					vs = append(vs, mkHdr(ws, hv{open: true, version: "1.0", xmlns: "jabber:client", id: "s1", to: to, from: nm}))
+				}
+				for _, nm := range nearMisses(to, max) {
+					vs = append(vs, mkHdr(ws, hv{open: true, version: "1.0", xmlns: "jabber:client", id: "s1", to: nm, from: from}))
+				}
+				if r == nil {
+					continue
+				}
+				for _, s2s := range []bool{false, true} {
+					runNeg(r, negCase{recv: recv, ws: ws, s2s: s2s, loc: loc, orig: orig, hdrs: []string{good}}, "neg-near-good")
+					for _, h := range vs {
+						runNeg(r, negCase{recv: recv, ws: ws, s2s: s2s, loc: loc, orig: orig, hdrs: []string{h}}, "neg-near-single")
+						runNeg(r, negCase{recv: recv, ws: ws, s2s: s2s, loc: loc, orig: orig, hdrs: []string{good, h}}, "neg-near-restart")
+						if recv {
+							// addresses learned from the first header, then the near miss
+							runNeg(r, negCase{recv: recv, ws: ws, s2s: s2s, hdrs: []string{good, h}}, "neg-near-learned")
+						}
+					}
 				}
 			}
 		}
@@ -1473,9 +1681,17 @@ func Run(r *common.Run) error {
 					runHdr(r, hdrCase{recv: recv, ws: ws, s2s: s2s, loc: "example.net", orig: "user@example.net", lang: l}, "hdr-lang")
 				}
 				runHdr(r, hdrCase{recv: recv, ws: ws, s2s: s2s, loc: "", orig: ""}, "hdr-noaddr")
+				// ---- the same after each history (a failed / cancelled / successful other session) ----
+				for _, pr := range priors {
+					for _, j := range []string{"user@example.net/res", "user@example.net/x'y", "user@example.net/a<b>c"} {
+						runHdr(r, hdrCase{recv: recv, ws: ws, s2s: s2s, loc: "example.net", orig: j, lang: "en", prior: pr}, "hdr-after-"+pr)
+					}
+					runHdr(r, hdrCase{recv: recv, ws: ws, s2s: s2s, loc: "", orig: "", prior: pr}, "hdr-after-"+pr)
+				}
 			}
 		}
 	}
+	r.Exhaustive = append(r.Exhaustive, "stream header after every history (another session whose 1st / 2nd write fails, whose connection takes 10 bytes, on the other framing and role, cancelled, successful) x role x framing x c2s/s2s")
 	// random resourceparts over a special-character alphabet
 	alpha := []rune("ab'\"&<>;#x/@ =é\t")
 	n := r.Pick(300, 5000)
@@ -1497,7 +1713,11 @@ func Run(r *common.Run) error {
 			}
 			lang = string(ls)
 		}
-		runHdr(r, hdrCase{recv: rnd.Bool(), ws: rnd.Bool(), s2s: rnd.Bool(), loc: "example.net", orig: j.String(), lang: lang}, "hdr-random")
+		prior := ""
+		if rnd.Chance(1, 4) {
+			prior = priors[rnd.Intn(len(priors))]
+		}
+		runHdr(r, hdrCase{recv: rnd.Bool(), ws: rnd.Bool(), s2s: rnd.Bool(), loc: "example.net", orig: j.String(), lang: lang, prior: prior}, "hdr-random")
 	}
 
 	// ---- tag: attribute values, line ends and references, exhaustive small scope ----
@@ -1574,6 +1794,10 @@ func Run(r *common.Run) error {
 			}
 		}
 	}
+
+	// ---- near misses of the established addresses ----
+	nearMissCases(r, r.Pick(6, 24))
+	r.Exhaustive = append(r.Exhaustive, "headers whose to / from is a near miss of the established address (the same octets cut differently into local / domain / resource, one octet less / more, bare vs full, domain only) x role x framing x s2s, single, after a restart, after the addresses were learned")
 
 	// ---- header exchange in a hostile environment: tee, write failures, cancellation ----
 	for _, ws := range []bool{false, true} {
@@ -1668,15 +1892,20 @@ func replayLine(r *common.Run, l string) error {
 	}
 	un := func(s string) string { v, _ := unhx(s); return v }
 	switch {
-	case f[0] == "hdr" && len(f) == 8:
+	case (f[0] == "hdr" && len(f) == 8) || (f[0] == "hdrp" && len(f) == 9):
 		// the arguments identify role only implicitly: replay both roles
+		prior := ""
+		if f[0] == "hdrp" {
+			prior = f[1]
+			f = append([]string{"hdr"}, f[2:]...)
+		}
 		ws := f[1] == "1"
 		s2s := un(f[2]) == "jabber:server"
 		to, from, id, lang := un(f[3]), un(f[4]), un(f[5]), un(f[6])
 		if id == "" {
-			runHdr(r, hdrCase{recv: false, ws: ws, s2s: s2s, loc: to, orig: from, lang: lang}, "replay")
+			runHdr(r, hdrCase{recv: false, ws: ws, s2s: s2s, loc: to, orig: from, lang: lang, prior: prior}, "replay")
 		} else {
-			runHdr(r, hdrCase{recv: true, ws: ws, s2s: s2s, loc: from, orig: to, lang: lang}, "replay")
+			runHdr(r, hdrCase{recv: true, ws: ws, s2s: s2s, loc: from, orig: to, lang: lang, prior: prior}, "replay")
 		}
 		return nil
 	case f[0] == "bindr" && len(f) == 4:
